@@ -217,7 +217,11 @@ def run(prog, tier):
                     if failed:
                         return [((failed, dirty, opn, True), 'throw')]
                     return [((failed, dirty, opn, True), 'next')]
-                unknown.append((nid, 'exceptions() with a mask that is not a constant containing failbit|badbit'))
+                if 'cv' in an:
+                    # a mask without failbit does not report failed flushes / opens / closes (they set failbit):
+                    # modelled as not throwing at all, the explicit tests must then do the work
+                    return [(state, 'next')]
+                unknown.append((nid, 'exceptions() with a non-constant mask'))
                 return [(state, 'next')]
             if name in HIDERS:
                 # reported separately; model clear() as what it does
